@@ -419,6 +419,10 @@ class Program:
             for r in d["records"]:
                 self.records_all.append((main, r))
                 self.records.setdefault(r["name"], r)
+            for r in d.get("extrecords", []):
+                # records of library headers whose members the unit touches (z_stream, ...): layout only,
+                # never part of records_all (the cross-unit layout comparison is about the repo's own records)
+                self.records.setdefault(r["name"], r)
             for e in d["enums"]:
                 self.enums.setdefault(e["name"], e)
                 for cn, cvv in e["consts"]:
